@@ -3123,10 +3123,16 @@ RESUME_VALIDATE_CERTS:
                 cert->authFailFlags |= PS_CERT_AUTH_FAIL_VERIFY_DEPTH_FLAG;
             }
         }
-        if (ssl->err != SSL_ALERT_NONE)
+        if (ssl->err != SSL_ALERT_NONE &&
+            ssl->err != SSL_ALERT_CERTIFICATE_EXPIRED)
         {
             break; /* The first alert is the logical one to send */
         }
+        /* ... except certificate_expired: any other failure further up the
+           chain takes priority over it (as within one certificate, see
+           psX509AuthenticateCert), so that an application which tolerates
+           expiry is never told "expired" about a chain that is also
+           untrusted or wrongly signed */
         switch (cert->authStatus)
         {
         case PS_CERT_AUTH_FAIL_SIG:
@@ -3142,7 +3148,10 @@ RESUME_VALIDATE_CERTS:
         case PS_CERT_AUTH_FAIL_EXTENSION:
             /* The math and basic constraints matched.  This case is
                 for X.509 extension mayhem */
-            if (cert->authFailFlags & PS_CERT_AUTH_FAIL_DATE_FLAG)
+            if ((cert->authFailFlags & PS_CERT_AUTH_FAIL_DATE_FLAG) &&
+                !(cert->authFailFlags & (PS_CERT_AUTH_FAIL_SUBJECT_FLAG |
+                        PS_CERT_AUTH_FAIL_KEY_USAGE_FLAG |
+                        PS_CERT_AUTH_FAIL_EKU_FLAG)))
             {
                 ssl->err = SSL_ALERT_CERTIFICATE_EXPIRED;
             }
